@@ -8,7 +8,8 @@ VERIF = os.path.dirname(os.path.dirname(os.path.abspath(__file__)))
 
 CHECKS = {
     # id: (engine, technique, level text, level note, design ref)
-    "C01": ("lock_stress+lock_seq", "ghost lock registry + payload consistency monitors over chaos stress runs",
+    "C01": ("lock_stress+lock_seq", "ghost lock registry + payload consistency monitors over chaos stress runs (injected delays, signal and "
+            "trap-flag stalls, full-speed runs, shared-counter edge probe)",
             "Held on the executions produced: tens of short multi-thread chaos runs per lock class with a ghost "
             "registry of grants (registered inside the real hold interval) and a payload that X holders update "
             "word by word; any conflicting pair of registered grants or half-updated read is a real overlap.",
@@ -91,16 +92,19 @@ CHECKS.update({
             "replacement being steered onto the ID that is being vacated while the exit path is delayed.",
             "capacities and schedules sampled; 'completely created' = CreateEpochGuard returned and the monitor "
             "registered it with a seq_cst store", "DESIGN.md §4 C04"),
-    "C05": ("thr_mon", "ghost owner table over thread churn with forced probe collisions",
+    "C05": ("thr_mon", "ghost owner table over thread churn with forced probe collisions, start/exit histories (mode=handoff) and a "
+            "70000-ID build (mode=bigcap, fork probe)",
             "Every thread checks range and stability of its ID and claims a ghost owner slot that must be empty; the "
             "slot is cleared as the last action of user code, so a clash is two running threads with equal IDs.",
             "capacities 1,2,3,8 (quick) / +5,16,64 (thorough)", "DESIGN.md §4 C05"),
-    "C14": ("thr_mon", "structural progress watchdog over waves of exactly N holders, oversubscription and churn",
+    "C14": ("thr_mon", "structural progress watchdog over waves of exactly N holders, oversubscription, churn, and random start/exit "
+            "histories with an exact expectation after every step (mode=handoff, signal and trap-flag stalls)",
             "After all threads of a step are joined, a wave of exactly N simultaneous holders must complete; "
             "oversubscribed starts must all obtain an ID as holders exit; a claimer spinning for the horizon while "
             "IDs should be free is a hang witness.",
             "'as soon as' = within the watchdog horizon", "DESIGN.md §4 C14"),
-    "C15": ("thr_mon", "heartbeat history monitor with the exit path delayed between its steps",
+    "C15": ("thr_mon", "heartbeat history monitor with the exit path delayed between its steps and single-stepped with the CPU trap "
+            "flag (stalls at single instruction boundaries)",
             "Each new owner of an ID checks, before doing anything else, that every heartbeat recorded for earlier "
             "owners of that ID is expired; running threads' heartbeats are checked unexpired by other threads; after "
             "join every heartbeat must be expired.",
